@@ -562,7 +562,9 @@ class Run:
     def proc(self, idx, steps):
         self.proc_idx[self.env.active_process] = idx
         slots = {}
-        for st in steps:
+        # the final sleep: a generator that ends without ever yielding makes Process._run_payload
+        # fail (C18's business, not C19's)
+        for st in list(steps) + [['sleep', 0]]:
             try:
                 yield from self.do_step(idx, slots, st)
             except self.simpy.Interrupt as i:
@@ -572,8 +574,6 @@ class Run:
                 if not any(p is me and c is i.cause for p, c in self.interrupts):
                     self.oracle.bad('process %d received an Interrupt nobody sent' % idx)
                 self.stats['interrupt'] = self.stats.get('interrupt', 0) + 1
-        # a generator that ends without ever yielding makes Process._run_payload fail (C18's business)
-        yield self.env.timeout(0)
 
     def execute(self):
         Process = self.events.Process
